@@ -110,6 +110,12 @@ IDENTITY_EXTRAS = [
         {'description': rng.choice(['tab\there', 'multi\nline', 'ünï', 'x' * 40])}),
     lambda rng, cfg: cfg['executors'][rng.choice(sorted(cfg['executors']))].update(
         {'build': ['make a', 'make "b c"'], 'args': '-Xfoo %(cores)s'}),
+    lambda rng, cfg: cfg['benchmark_suites'][rng.choice(sorted(cfg['benchmark_suites']))].update(
+        {'build': ['make suite-build'], 'location': rng.choice(['.', 'suite-dir', '/opt/bench/suite', '~/benchmarks'])}),
+    lambda rng, cfg: cfg['executors'][rng.choice(sorted(cfg['executors']))].update(
+        {'build': ['make exec-build'], 'path': rng.choice(['.', 'exec-dir', '/opt/vm', '~/vm'])}),
+    lambda rng, cfg: [su.update({'build': ['make shared-build'], 'location': 'shared-dir'})
+                      for su in cfg['benchmark_suites'].values()],
     lambda rng, cfg: cfg['runs'].update({'max_invocation_time': 60, 'min_iteration_time': 0,
                                          'retries_after_failure': 2}),
     lambda rng, cfg: cfg['executors'][rng.choice(sorted(cfg['executors']))].update(
@@ -123,10 +129,17 @@ IDENTITY_EXTRAS = [
 ]
 
 
-def gen_identity_config(rng):
+def gen_identity_config(rng, for_sessions=False):
     cfg = dp.gen_config(rng, {'env': True, 'max_exp': 2})
     for f in rng.sample(IDENTITY_EXTRAS, rng.randint(0, 3)):
         f(rng, cfg)
+    if for_sessions:
+        # a '~' in the executor's path / suite's location makes ReBench re-quote the whole command line
+        # (expand_user, C03): keep it to the identity check, where no process is started
+        for d in list(cfg['executors'].values()) + list(cfg['benchmark_suites'].values()):
+            for key in ('path', 'location'):
+                if str(d.get(key, '')).startswith('~'):
+                    d[key] = d[key].replace('~', '/opt/home', 1)
     if rng.random() < 0.4:   # extra_args of a non-string YAML type: int, float, bool (and the look-alike strings)
         su = cfg['benchmark_suites'][rng.choice(sorted(cfg['benchmark_suites']))]
         b = su['benchmarks'][-1]
@@ -206,14 +219,8 @@ def identity_check(ck, n):
                             {'equal': ab['reload_is_configured']}, TH_ID)
             # oracle: a new session recognises the recorded benchmark / run as the configured one
             if not same:
-                differ = []
-                for attr in fields['Benchmark']:
-                    a, b = getattr(back, attr, None), getattr(run2.benchmark, attr, None)
-                    if a != b or type(a) is not type(b) and not hasattr(a, '__dict__'):
-                        differ.append('%s: reloaded %r, configured %r' % (attr, a if not hasattr(a, '__dict__') else '...',
-                                                                          b if not hasattr(b, '__dict__') else '...'))
-                env_differs = any(d.startswith('run_details') for d in differ) and \
-                    (back.run_details.env != run2.benchmark.run_details.env)
+                differ = describe_diff(back, run2.benchmark, fields)
+                env_differs = any(d.startswith('run_details.env') for d in differ)
                 ck.oracle_fail('recognised', inp, {'fields_that_differ': differ,
                                                    'recorded_env': rec['runDetails'].get('env'), 'configured_env': env},
                                {'class': 'env_tilde' if (has_tilde and env_differs) else
@@ -230,9 +237,49 @@ def identity_check(ck, n):
         else:
             ck.oracle_fail('no_crash', inp, {'exception': 'TypeError', 'in': 'json.dumps(benchmark.as_dict())'},
                            {'class': 'date_scalar', 'exception': 'TypeError'})
+        # the model keeps a build command as its text: its location is the suite's location / the executor's
+        # path by construction -- check that on the configured and on the reloaded objects
+        if ser:
+            for who, bobj in (('configured', run2.benchmark), ('reloaded', back)):
+                su = bobj.suite
+                if su.build is not None:
+                    ck.count('identity:suite-build+location-%s' % (
+                        'absent' if su.location is None else 'same-as-path' if su.location == su.executor.path
+                        else 'different'))
+                probs = []
+                if su.build is not None and su.build.location != su.location:
+                    probs.append('suite.build.location %r != suite.location %r' % (su.build.location, su.location))
+                if su.executor.build is not None and su.executor.build.location != su.executor.path:
+                    probs.append('executor.build.location %r != executor.path %r'
+                                 % (su.executor.build.location, su.executor.path))
+                if probs:
+                    ck.disagree('c07.bench: location of the %s BuildCommand' % who, inp, probs,
+                                'a build is located where its suite / executor is', TH_ID)
         if not done_fields:
             done_fields = True
             field_lists(ck, fields, run2)
+
+
+def describe_diff(a, b, fields, prefix=''):
+    """the leaves in which a reloaded key differs from the configured one, e.g. 'suite.build.location'"""
+    nested = {'Benchmark': {'run_details': 'ExpRunDetails', 'variables': 'ExpVariables', 'suite': 'BenchmarkSuite'},
+              'BenchmarkSuite': {'build': 'BuildCommand', 'executor': 'Executor'},
+              'Executor': {'build': 'BuildCommand', 'run_details': 'ExpRunDetails', 'variables': 'ExpVariables'}}
+    cls = type(a).__name__
+    if a is None or b is None or type(a) is not type(b):
+        return [] if a == b and type(a) is type(b) else ['%s: reloaded %r, configured %r' % (prefix.rstrip('.'), a, b)]
+    names = dict(fields, BuildCommand=['command', 'location']).get(cls)
+    if names is None:
+        return [] if (a == b and type(a) is type(b)) else \
+            ['%s: reloaded %r, configured %r' % (prefix.rstrip('.'), a, b)]
+    out = []
+    for attr in names:
+        x, y = getattr(a, attr, None), getattr(b, attr, None)
+        if attr in nested.get(cls, {}) and x is not None and y is not None:
+            out += describe_diff(x, y, fields, prefix + attr + '.')
+        elif x != y or type(x) is not type(y):
+            out.append('%s%s: reloaded %r, configured %r' % (prefix, attr, x, y))
+    return out
 
 
 def field_lists(ck, fields, run):
@@ -417,7 +464,7 @@ def classify_line(c):
 
 # ------------------------------------------------------------------ C sessions
 def gen_history(rng):
-    cfg = gen_identity_config(rng)
+    cfg = gen_identity_config(rng, for_sessions=True)
     n = rng.randint(2, 4)
     specs = []
     for _ in range(n):
@@ -665,6 +712,94 @@ def special_history(ck, name, data):
                            {'class': klass, 'level': 'session'})
 
 
+# ------------------------------------------------------------------ E parallel scheduler: ids
+def parallel_ids_slice(ck, n):
+    """>= 2 non-exclusive runs whose first data points arrive on two worker threads of the ParallelScheduler.
+    A rendezvous inside the persist path -- on `RunId.as_dict`, which `_ensure_run_id_is_persisted` calls
+    between choosing the next id and writing the `# run_id:` record -- gives a second thread its chance
+    exactly there; with `persist_data_point` holding its lock around id choice and record the second thread
+    cannot get in and the wait times out.  Oracle: ids consecutive in the file, the next session loads it
+    without crash and starts nothing."""
+    import threading
+    from rebench.model.run_id import RunId
+    rng = ck.rng
+    for idx in range(n):
+        n_bench = rng.randint(2, 4)
+        cfg = {'default_experiment': 'all', 'default_data_file': 'par.data', 'runs': {'invocations': 1},
+               'benchmark_suites': {'S0': {'gauge_adapter': 'RebenchLog',
+                                           'command': '%(benchmark)s c%(cores)s i%(input)s v%(variable)s t%(tag)s w%(warmup)s n%(invocation)s',
+                                           'benchmarks': ['P%d' % b for b in range(n_bench)]}},
+               'executors': {'E0': {'path': '.', 'executable': 'exe0', 'execute_exclusively': False}},
+               'experiments': {'X0': {'suites': ['S0'], 'executions': ['E0']}}}
+        if rng.random() < 0.5:   # two suites: the benchmark records race too
+            cfg['benchmark_suites']['S1'] = dict(cfg['benchmark_suites']['S0'], benchmarks=['Q0', 'Q1'])
+            cfg['experiments']['X0']['suites'] = ['S0', 'S1']
+        wd = os.path.join(ck.scratch, 'parid%d' % idx)
+        os.makedirs(wd)
+        drive.write_config(wd, cfg)
+        probe = dp.Probe(wd, cfg, [])
+        outputs = dp.gen_outputs(random.Random(rng.randint(0, 10 ** 9)), probe, fail_rate=0.0)
+        cpu = rng.choice([5, 8])
+        state = {'lock': threading.Lock(), 'inside': 0, 'event': threading.Event(), 'met': 0}
+        orig_as_dict = RunId.as_dict
+        main_thread = threading.current_thread()
+
+        def rendezvous_as_dict(self, *a, **kw):
+            if threading.current_thread() is not main_thread:
+                with state['lock']:
+                    state['inside'] += 1
+                    if state['inside'] >= 2:
+                        state['event'].set()
+                        state['met'] += 1
+                    ev = state['event']
+                ev.wait(0.2)
+                with state['lock']:
+                    state['inside'] -= 1
+                    if state['inside'] == 0:
+                        state['event'] = threading.Event()
+            return orig_as_dict(self, *a, **kw)
+        conf = os.path.join(wd, 'test.conf')
+        RunId.as_dict = rendezvous_as_dict
+        try:
+            r1 = drive.run_session(wd, [conf], dp.make_script(probe, outputs, []), cpu_count=cpu)
+        finally:
+            RunId.as_dict = orig_as_dict
+            dp.release_hanging()
+        text = dp.read_text(os.path.join(wd, 'par.data'))
+        r2 = drive.run_session(wd, [conf], dp.make_script(probe, outputs, []), cpu_count=1)
+        dp.release_hanging()
+        ck.impl_traces += 2
+        ck.count('parallel-ids:threads=%d' % int(cpu / 2.5))
+        ck.count('parallel-ids:rendezvous-%s' % ('met' if state['met'] else 'timed-out'))
+        inp = {'parallel_ids': True, 'cfg': cfg, 'cpu_count': cpu}
+        ck.case(nontrivial_key=('parid', idx, n_bench, cpu), sample={'runs': len(probe.runs), 'cpu_count': cpu,
+                                                                      'status': [r1.status(), r2.status()]})
+        rids, bids = [], []
+        for line in text.split('\n'):
+            if line.startswith('# run_id: '):
+                rids.append(int(line[len('# run_id: '):].split('=', 1)[0]))
+            elif line.startswith('# benchmark: '):
+                bids.append(int(line[len('# benchmark: '):].split('=', 1)[0]))
+        sig = {'class': 'parallel_scheduler'}
+        if r1.crash:
+            ck.oracle_fail('no_crash', dict(inp, session=0), {'crash': r1.crash},
+                           dict(sig, exception=r1.crash[0], level='session'))
+        if rids != list(range(len(rids))) or bids != list(range(len(bids))) or len(rids) != len(probe.runs):
+            ck.oracle_fail('ids_consecutive', inp, {'run_ids': rids, 'bench_ids': bids, 'runs': len(probe.runs)}, sig)
+        if r2.crash or r2.status() not in ('ok', 'failed'):
+            ck.oracle_fail('no_crash', dict(inp, session=1), {'status': r2.status(), 'crash': r2.crash},
+                           dict(sig, exception=(r2.crash or ['-'])[0], level='session'))
+        elif r2.starts:
+            ck.oracle_fail('recognised', dict(inp, session=1), {'second_session_starts': len(r2.starts)},
+                           dict(sig, level='session'))
+        # model side: any sequential order of whole persists gives ids 0..n-1 (c07_ids_consecutive over Reach)
+        if (rids, bids) != (list(range(len(probe.runs))), list(range(len(set(r['bench'] for r in probe.runs))))):
+            ck.disagree('c07.parallel: ids written under the ParallelScheduler vs any sequential history of whole '
+                        'persists', inp, {'run_ids': rids, 'bench_ids': bids},
+                        {'run_ids': list(range(len(probe.runs))),
+                         'bench_ids': list(range(len(set(r['bench'] for r in probe.runs))))}, TH_FILE)
+
+
 def run(ck):
     quick = ck.tier == 'quick'
     ck.rule = ('A: configured keys of generated configurations (env maps with ~ % unicode, mixed-type variable lists, '
@@ -684,6 +819,7 @@ def run(ck):
         ck.count('corpus')
     identity_check(ck, 40 if quick else 600)
     line_check(ck, 600 if quick else 20000)
+    parallel_ids_slice(ck, 5 if quick else 60)
     n_hist = 60 if quick else 1500
     batch = []
     for i in range(n_hist):
@@ -697,7 +833,10 @@ def run(ck):
 
 def replay(ck, data):
     inp = data['input']
-    if 'line' in inp:
+    if inp.get('parallel_ids'):
+        ck.notes.append('parallel replays re-run the slice from the seed')
+        parallel_ids_slice(ck, 5)
+    elif 'line' in inp:
         ck.notes.append('line replays: the fixed hostile table and the seed regenerate it')
         line_check(ck, 600)
     elif 'harness_output' in inp:
